@@ -6,8 +6,11 @@ simulation is sequentially consistent and could not see them), nor are lines und
 cfg(multiqueue2_verif), comments, tests, Debug impls."""
 import re, sys, os, subprocess, difflib
 repo, out = sys.argv[1], sys.argv[2]
+WRAPPERS_FULL = '--wrappers' in sys.argv   # third family: all operators on the wrapper files only
 os.makedirs(out, exist_ok=True)
 FILES = ['multiqueue.rs', 'read_cursor.rs', 'countedindex.rs', 'memory.rs', 'atomicsignal.rs', 'wait.rs', 'broadcast.rs', 'mpmc.rs']
+if WRAPPERS_FULL:
+    FILES = ['broadcast.rs', 'mpmc.rs']
 muts = []
 def code_lines(path):
     L = open(path).read().split('\n')
@@ -37,7 +40,7 @@ for f in FILES:
     p = os.path.join(repo, 'src', f)
     L, ok = code_lines(p)
     # wrappers: only a sample of operators (they mostly delegate)
-    light = f in ('broadcast.rs', 'mpmc.rs')
+    light = f in ('broadcast.rs', 'mpmc.rs') and not WRAPPERS_FULL
     for i, l in enumerate(L):
         if not ok[i]:
             continue
@@ -90,7 +93,7 @@ for (f, i, new, op) in muts:
     if a == b:
         continue
     d = ''.join(difflib.unified_diff([x + '\n' for x in a], [x + '\n' for x in b], 'a/src/' + f, 'b/src/' + f, n=3))
-    name = 'm%03d' % n
+    name = ('w%03d' if WRAPPERS_FULL else 'm%03d') % n
     open(os.path.join(out, name + '.diff'), 'w').write(d)
     idx.write('%s\t%s\t%d\t%s\t%s\t%s\n' % (name, f, i + 1, op, a[i].strip(), b[i].strip()))
     n += 1
